@@ -8,6 +8,7 @@ import random
 from dataclasses import dataclass, field
 
 INT, BOOL, FLOAT, STR = 'int', 'bool', 'float', 'str'
+EXT_KINDS = ['closure', 'lambda_arg', 'lambda_iife', 'dict', 'dict_loop', 'dict_comp', 'tuple', 'enumerate', 'list_ops', 'casts', 'try', 'nested', 'list_comp', 'default_arg', 'str_ops', 'dict_views', 'list_fill', 'float_mix']
 SCALARS = [INT, BOOL, FLOAT, STR]
 NAME_POOL = ['a', 'b', 'c', 'n', 'm', 'k', 'x', 'y', 'z', 'v', 'w', 'p', 'q', 'i2', 'val', 'cnt', 'acc', 'tmp', 'lhs', 'rhs']
 
@@ -36,6 +37,7 @@ class Gen:
         self.readonly: set[str] = set()
         self.usable_classes: list[dict] = []
         self.header: list[str] = []
+        self.force_ext: list[str] = list(self.opts.get('force_ext') or [])   # extended constructs to emit first, one per statement slot
 
     def use(self, k: str) -> None:
         self.constructs[k] = self.constructs.get(k, 0) + 1
@@ -109,7 +111,14 @@ class Gen:
             if k < .4:
                 self.use('compare')
                 op = r.choice(['<', '>', '<=', '>=', '==', '!='])
-                return '%s %s %s' % (self.expr(INT, env, d - 1), op, self.expr(INT, env, d - 1))
+                l, rr = self.expr(INT, env, d - 1), self.expr(INT, env, d - 1)
+                # len(x) is size_t in the emitted C++: a comparison with a negative value differs (recorded finding
+                # len-unsigned-compare, replayed by C01 as a directed shape); generated comparisons convert explicitly
+                if 'len(' in l:
+                    l = 'int(%s)' % l
+                if 'len(' in rr:
+                    rr = 'int(%s)' % rr
+                return '%s %s %s' % (l, op, rr)
             if k < .65:
                 self.use('boolop')
                 op = r.choice(['and', 'or'])
@@ -180,7 +189,7 @@ class Gen:
         env = dict(env)
         for _ in range(r.randint(1, 4)):
             k = r.random()
-            if self.opts['ext'] and r.random() < .2:
+            if self.opts['ext'] and (getattr(self, 'force_ext', None) or r.random() < .2):
                 out.extend(self.ext_stmt(env, ind, d))
                 continue
             if k < .3:
@@ -298,8 +307,9 @@ class Gen:
             b, v = self.fresh('b'), self.fresh('x')
             out = ['%s%s = %s(%s, 2.5)' % (ind, b, self.need_wide, ', '.join(self.int_atoms(env, 9))), '%s%s = 1 if %s else 0' % (ind, v, b)]
             env[v] = INT
+            self.last_ext_var = v
             return out
-        kind = r.choice(['closure', 'closure', 'lambda_arg', 'lambda_iife', 'dict', 'dict_loop', 'dict_comp', 'tuple', 'enumerate', 'list_ops', 'casts', 'try', 'nested', 'list_comp', 'default_arg', 'str_ops', 'dict_views'])
+        kind = self.force_ext.pop(0) if getattr(self, 'force_ext', None) else r.choice(['closure', 'closure', 'lambda_arg', 'lambda_iife', 'dict', 'dict_loop', 'dict_comp', 'tuple', 'enumerate', 'list_ops', 'casts', 'try', 'nested', 'list_comp', 'default_arg', 'str_ops', 'dict_views', 'list_fill', 'float_mix'])
         self.use('ext_' + kind)
         out: list[str] = []
         v = self.fresh('x')
@@ -396,6 +406,24 @@ class Gen:
             out.append('%s%s = [%s, %s, %s]' % (ind, xs, e1, e2, self.lit(INT)))
             out.append('%s%s = [%s * 2 for %s in %s if %s > 1]' % (ind, ys, x, x, xs, x))
             out.append('%s%s = len(%s)' % (ind, v, ys))
+        elif kind == 'list_fill':
+            # [v] * n: annotated and inferred declarations, int and bool elements
+            xs, a = self.fresh('xs'), self.int_atoms(env, 1)[0]
+            cnt = r.choice(['(%s & 3) + 2' % a, '3', '%s & 1 | 2' % a])
+            zs = self.fresh('zs')
+            out.append('%s%s: list[int] = [%s] * (%s)' % (ind, xs, e1, cnt))
+            out.append('%s%s = [%s] * (%s)' % (ind, zs, e2, cnt))
+            out.append('%s%s = len(%s) * 1000 + %s[0] + %s[1] + len(%s) * 100 + %s[1]' % (ind, v, xs, xs, xs, zs, zs))
+        elif kind == 'float_mix':
+            # one chain of a single precedence level that mixes int and float operands; the result type is inferred
+            y, a, b = self.fresh('y'), self.int_atoms(env, 1)[0], self.int_atoms(env, 1)[0]
+            ia, ib, fl = '(%s & 63)' % a, '(%s & 31)' % b, r.choice(['1.5', '0.5', '2.5'])
+            op = r.choice(['*', '+', '-'])
+            y2 = self.fresh('y')
+            order = r.choice([(fl, ia, ib), (ia, ib, fl), (ia, fl, fl)])
+            out.append('%s%s = %s' % (ind, y, (' %s ' % op).join((ia, fl, ib))))
+            out.append('%s%s = %s' % (ind, y2, (' %s ' % r.choice(['*', '+', '-'])).join(order)))
+            out.append('%s%s = int(%s * 2.0) + int(%s + 100.5) + int(%s * 2.0)' % (ind, v, y, y, y2))
         elif kind == 'default_arg':
             self.need_dflt = True
             out.append('%s%s = dflt(%s) + dflt(%s, %s)' % (ind, v, e1, e2, self.lit(INT)))
@@ -407,6 +435,7 @@ class Gen:
                 sv = t
             out.append("%s%s = len(%s) + len(str(%s) + %s) + (1 if len(%s) > %s else 0)" % (ind, v, sv, e1, sv, sv, self.lit(INT)))
         env[v] = INT
+        self.last_ext_var = v
         return out
 
     def function(self, ind: str = '', name: str | None = None, self_fields: dict[str, str] | None = None) -> list[str]:
@@ -421,10 +450,23 @@ class Gen:
         if self_fields:
             env.update({'self.' + k: t for k, t in self_fields.items()})
         sig = ', '.join((['self'] if self_fields is not None else []) + ['%s: %s' % (p, t) for p, t in params])
+        # forced extended constructs: first statements of the body, their results are part of the returned value
+        observed: list[str] = []
+        head: list[str] = []
+        if self.force_ext and self.opts['ext']:
+            rt = INT
+            henv = dict(env)
+            for _ in range(min(2, len(self.force_ext))):
+                head.extend(self.ext_stmt(henv, ind + '\t', 2))
+                observed.append(self.last_ext_var)
         out = ['%sdef %s(%s) -> %s:' % (ind, name, sig, rt)]
+        out.extend(head)
         out.extend(self.block(env, rt, 2, ind + '\t'))
         # recompute env visible at the end: only parameters are certainly bound
-        out.append('%s\treturn %s' % (ind, self.expr(rt, {p: t for p, t in env.items()})))
+        ret = self.expr(rt, {p: t for p, t in env.items()})
+        if observed:
+            ret = '(%s) + %s' % (ret, ' + '.join(observed))
+        out.append('%s\treturn %s' % (ind, ret))
         if self_fields is None:
             self.funcs.append((name, params, rt))
         return out, name, params, rt
@@ -462,6 +504,32 @@ class Gen:
             out.append('def %s(%s: int) -> %s:' % (mk, q, cname))
             out.append('\treturn %s(%s)' % (cname, ', '.join(q if t == INT else self.lit(t) for t in fields.values())))
             self.classes[-1]['factory'] = mk
+        if self.opts['ext'] and self.opts.get('subclass', True) and r.random() < .4:
+            out.append('')
+            out.extend(self.subclass(self.classes[-1]))
+        return out
+
+    def subclass(self, base: dict) -> list[str]:
+        """class D(C): one more int field, __init__ through super().__init__, a method that reads a base field and calls a base method"""
+        r = self.rnd
+        dname, ext = self.fresh('D'), self.fresh('ext')
+        self.use('subclass')
+        q1, q2, a = self.fresh('p'), self.fresh('p'), self.fresh('p')
+        out = ['class %s(%s):' % (dname, base['name']), '\t%s: int' % ext, '']
+        out.append('\tdef __init__(self, %s: int, %s: int) -> None:' % (q1, q2))
+        out.append('\t\tsuper().__init__(%s)' % ', '.join(('%s + 1' % q1) if t == INT else self.lit(t) for t in base['fields'].values()))
+        out.append('\t\tself.%s = %s' % (ext, q2))
+        out.append('')
+        mname = self.fresh('m')
+        ints = [f for f, t in base['fields'].items() if t == INT]
+        strs = [f for f, t in base['fields'].items() if t == STR]
+        terms = ['self.%s * 2' % ext, a] + ['self.%s' % f for f in ints[:1]] + ['len(self.%s)' % f for f in strs[:1]]
+        bm = next(((m, ps) for m, ps, rt in base['methods'] if rt == INT and all(t in (INT, BOOL) for _, t in ps)), None)
+        if bm:
+            terms.append('self.%s(%s)' % (bm[0], ', '.join(a if t == INT else 'True' for _, t in bm[1])))
+        out.append('\tdef %s(self, %s: int) -> int:' % (mname, a))
+        out.append('\t\treturn %s' % ' + '.join(terms))
+        base['subclass'] = dict(name=dname, method=mname)
         return out
 
     def enum(self) -> list[str]:
@@ -514,6 +582,11 @@ class Gen:
             c = self.classes[-1]
             for mname, params, rt in c['methods']:
                 entries.append(('%s(%s).%s' % (c['name'], ', '.join(self.lit(t) for _, t in c['cparams']), mname), self.args_for(params), rt))
+            if c.get('subclass'):
+                d = c['subclass']
+                entries.append(('%s(%s, %s).%s' % (d['name'], self.lit(INT), self.lit(INT), d['method']), self.args_for([('a', INT)]), INT))
+                for mname, params, rt in c['methods'][:1]:
+                    entries.append(('%s(%s, %s).%s' % (d['name'], self.lit(INT), self.lit(INT), mname), self.args_for(params), rt))
         head: list[str] = []
         if getattr(self, 'need_wide', False):
             head += ['def %s(%s, p9: float) -> bool:' % (self.need_wide, ', '.join('p%d: int' % k for k in range(9))), '\treturn p0 > p8', '']
